@@ -66,7 +66,7 @@ RegAll(im, us) == IF us = <<>> THEN im ELSE RegAll(IRegister(im, Head(us).name, 
 Init ==
   /\ S = [topo |-> MkTopo(PU0, AllNodes),
           user |-> [i \in DOMAIN InitUser |-> [name |-> InitUser[i].name, flags |-> VInt(InitUser[i].flags)]],
-          ref |-> {}, weak |-> {}]
+          ref |-> {}, weak |-> {}, pool |-> {}]
   /\ impl = RegAll(ImplInit, InitUser)
   /\ cnt = [reg |-> 0, set |-> 0, topo |-> 0, touch |-> 0]
   /\ ok = TRUE
